@@ -22,7 +22,7 @@ class WorkerDeath(BaseException):
 
 
 class Sched:
-    def __init__(self, assign=None, max_steps=200000):
+    def __init__(self, assign=None, max_steps=200000, sched_seed=None):
         self.cv = threading.Condition()
         self.threads = []          # _T records, main first
         self.turn = None
@@ -31,6 +31,10 @@ class Sched:
         self.steps = 0
         self.max_steps = max_steps
         self.hang = False
+        # sched_seed None: strict round-robin; otherwise the next runnable process is drawn
+        # pseudo-randomly (reproducibly), which varies start-up order, monitor timing, filler progress
+        import random as _random
+        self.rnd = _random.Random(sched_seed) if sched_seed is not None else None
         self.tls = threading.local()
         self.log = []              # (kind, who, what)
         main = _T("main", None)
@@ -62,12 +66,13 @@ class Sched:
         if self.steps > self.max_steps:
             self.hang = True
         if not self.hang:
-            for d in range(1, n + 1):
-                t = self.threads[(start + d) % n]
-                if t.runnable():
-                    self.turn = t
-                    self.cv.notify_all()
-                    return
+            order = [self.threads[(start + d) % n] for d in range(1, n + 1)]
+            cands = [t for t in order if t.runnable()]
+            if cands:
+                t = cands[0] if self.rnd is None else self.rnd.choice(cands)
+                self.turn = t
+                self.cv.notify_all()
+                return
         # nobody can run: wake main with the hang flag
         self.hang = True
         self.turn = self.threads[0]
@@ -229,11 +234,11 @@ class FakeContext:
 
 
 def run_parallel_add(items, callback, n_workers, cms_args=None, hh_args=None, hll_args=None, assign=None,
-                     **kwargs):
+                     sched_seed=None, **kwargs):
     """Run the real helpers.parallel_add under the deterministic scheduler.
     Returns (outcome, value, sched): outcome in {"returned", "raised", "hang"}."""
     helpers = impl.helpers
-    sched = Sched(assign)
+    sched = Sched(assign, sched_seed=sched_seed)
     ctx = FakeContext(sched)
     old_ctx, old_sleep = helpers.get_context, helpers.sleep
     helpers.get_context = lambda _method=None: ctx
